@@ -40,8 +40,12 @@ Lemma cs_rsi n : (1 <= n)%nat -> core_spec (@rsi_core R ROps n) any (@spec_rsi R
 Proof. intros Hn vs _. apply rsi_closed_form; assumption. Qed.
 Lemma cs_myrsi n : (1 <= n)%nat -> core_spec (@myrsi_core R ROps n) any (@spec_myrsi R ROps n).
 Proof. intros Hn vs _. apply myrsi_closed_form; assumption. Qed.
-Lemma cs_cti n : (1 <= n)%nat -> core_spec (@cti_core R ROps n) (fun vs => (n <= length vs)%nat) (@spec_cti R ROps n).
-Proof. intros Hn vs Hv. apply cti_closed_form; assumption. Qed.
+(** since the repair of CTI (count = number of values present, clamp) the spec holds on every history *)
+Lemma cs_cti n : (1 <= n)%nat -> core_spec (@cti_core R ROps n) any (@spec_cti R ROps n).
+Proof. intros Hn vs _. apply cti_closed_form; assumption. Qed.
+(** the former, guarded form (still true) *)
+Lemma cs_cti_full n : (1 <= n)%nat -> core_spec (@cti_core R ROps n) (fun vs => (n <= length vs)%nat) (@spec_cti R ROps n).
+Proof. intros Hn vs _. apply cti_closed_form; assumption. Qed.
 Lemma cs_net n : (1 <= n)%nat -> core_spec (@net_core R ROps n) any (@spec_net R ROps n).
 Proof. intros Hn vs _. apply net_closed_form; assumption. Qed.
 Lemma cs_cog n : (1 <= n)%nat -> core_spec (@cog_core R ROps n) any (@spec_cog R ROps n).
